@@ -145,14 +145,16 @@ pub fn replay_file(prop: &str, file: &str, known: &Known, strict: bool) -> Resul
             return crate::e2::replay_e2(p.as_ref(), &tape, known, strict);
         }
     }
-    replay_special(prop, part, &tape, known, strict)
+    // cross-process parts: the stored input text wins over the tape (the tape only reproduces it with the generator it was drawn from)
+    let stored = v["detail"]["input"].as_str().or_else(|| v["case"].as_str()).map(|s| s.lines().filter(|l| !l.starts_with("// outcome:")).collect::<Vec<_>>().join("\n"));
+    replay_special(prop, part, &tape, stored.as_deref(), known, strict)
 }
 
 /// Parts that are not E1 parts (cross-process, compile-and-run) replay through their own entry points.
-fn replay_special(prop: &str, part: &str, tape: &[u16], known: &Known, strict: bool) -> Result<Option<String>, String> {
+fn replay_special(prop: &str, part: &str, tape: &[u16], stored: Option<&str>, known: &Known, strict: bool) -> Result<Option<String>, String> {
     match (prop, part) {
-        ("C19", "cross-process") => c19::replay_cross(tape, known, strict),
-        ("C18", "backend-diff") => c18::replay(tape, known),
+        ("C19", "cross-process") => c19::replay_cross(tape, stored, known, strict),
+        ("C18", "backend-diff") => c18::replay(tape, stored, known),
         _ => Err(format!("no part {} in {}", part, prop)),
     }
 }
